@@ -590,6 +590,10 @@ public:
       if (head_is_entry) {
         new_pre |= entry_pre;
       }
+      if (m_assumptions && !m_assumptions->empty()) {
+        // the assumption at the head holds at every iteration
+        new_pre = strengthen(head, new_pre);
+      }
       crab::CrabStats::stop("Fixpo.join_predecessors");
       crab::CrabStats::resume("Fixpo.check_fixpoint");
       bool fixpoint_reached = new_pre <= pre;
@@ -627,6 +631,9 @@ public:
       }
       if (head_is_entry) {
         new_pre |= entry_pre;
+      }
+      if (m_assumptions && !m_assumptions->empty()) {
+        new_pre = strengthen(head, new_pre);
       }
       crab::CrabStats::stop("Fixpo.join_predecessors");
       crab::CrabStats::resume("Fixpo.check_fixpoint");
